@@ -94,7 +94,7 @@ def gen_trace(seed, world, tier, mode=None):
     else:
         cfg = {"tol": tol, "max_iter": R.choice([budget, 500]),
                "preconditioner_rank": 0 if kind == "cgne" else R.randint(1, n)}
-        if kind == "cgne" and not wrong and cond <= 10 and R.random() < 0.4:
+        if kind == "cgne" and not wrong and not midsize and cond <= 10 and R.random() < 0.4:
             # the tightest budget that provably suffices: CG terminates after as many steps as
             # there are distinct singular values (1 for an isometry; n + 2 leaves rounding room,
             # 0 failures in 6000 trials on the unchanged tree)
@@ -326,8 +326,10 @@ class Hooks(BaseHooks):
                 if c > a * (1 + 1e-9) + 1e-14 * mt["cond"]:
                     viol.append(V("cgne_monotone", i, f"CGNE residual increases: {a:.6e} -> {c:.6e}"))
                     break
+            # (finite termination after n steps is an exact-arithmetic property; in floating point
+            # it was validated for n <= 8 only and does NOT hold for mid-size inputs - DESIGN 6.3)
             tight_ok = (mt["cond"] <= 1.0 + 1e-9 and cfg["max_iter"] >= 1) or \
-                       (mt["cond"] <= 10.0 * (1 + 1e-9) and cfg["max_iter"] >= n + 2)
+                       (mt["cond"] <= 10.0 * (1 + 1e-9) and cfg["max_iter"] >= n + 2 and n <= 8)
             if not fault.get("line") and not tags.get("wrong_orientation") \
                     and ((cfg["max_iter"] >= 400 and mt["cond"] <= 1e3) or tight_ok):
                 if true > tol * (1 + 1e-6) + 1e-12 * mt["cond"] ** 2:
